@@ -669,7 +669,11 @@ func cmdCheck(args []string) int {
 	os.MkdirAll("/verif/evidence", 0o755)
 	b, _ := json.MarshalIndent(ev, "", " ")
 	os.WriteFile(evPath, b, 0o644)
-	fmt.Printf("property %s: %d functions, %d obligations, %d discharged, %d known findings, %d violations, %.1fs\n", prop, len(fnNames), len(allObls), discharged, knownUnproved, violations, time.Since(t0).Seconds())
+	dep := ""
+	if len(foreignHit) > 0 {
+		dep = fmt.Sprintf(" (+%d in dependencies, reported by their own property)", len(foreignHit))
+	}
+	fmt.Printf("property %s: %d functions, %d obligations, %d discharged, %d known findings%s, %d violations, %.1fs\n", prop, len(fnNames), len(allObls), discharged, knownUnproved-len(foreignHit), dep, violations, time.Since(t0).Seconds())
 	if violations > 0 {
 		return 1
 	}
